@@ -119,6 +119,15 @@ def get_parent(doc, path):
     return cur
 
 
+# decimal digits outside ASCII (Arabic-Indic, full-width, Devanagari): digits for str.isdigit / int() /
+# an un-flagged \\d, not hexadecimal digits
+_UD = "\u0660\u0661\u0662\u0663\uff10\uff11\u0966\u0967"
+
+
+def _udhex(nchars):
+    return (_UD * (nchars // len(_UD) + 1))[:nchars]
+
+
 SPECIAL = {
     "keyId": ["m/44'/0'/0'/0", "m/44'/0'/0'/0/0/0", "44'/0'/0'/0/0", "M/44'/0'/0'/0/0",
               "m/44h/0'/0'/0/0", "m/2147483648/0/0/0/0", "m/2147483647'/0/0/0/0", "m/-1/0/0/0/0",
@@ -129,17 +138,20 @@ SPECIAL = {
     "outpointValue": [0, -1, 2 ** 64, 2 ** 64 - 1, 1, 1.0, True, "1", None],
     "sighashComputationMode": ["Legacy", "SEGWIT", "", "taproot", 0, None, "legacy ", " segwit",
                                "LEGACY", "Segwit", "legacy\u0000"],
-    "hash": ["0" * 63, "abc", "00" * 31, "00" * 33, "zz" * 32, "0x" + "00" * 31, "", 5, None, ("00 " * 32).strip()],
-    "udValue": ["0" * 31, "0" * 63, "00" * 15, "00" * 17, "00" * 16, "00" * 32, "gg" * 16, "", 7, None],
+    "hash": ["0" * 63, "abc", "00" * 31, "00" * 33, "zz" * 32, "0x" + "00" * 31, "", 5, None, ("00 " * 32).strip(),
+             _udhex(64), "ab" * 31 + "\u0661\u0662"],
+    "udValue": ["0" * 31, "0" * 63, "00" * 15, "00" * 17, "00" * 16, "00" * 32, "gg" * 16, "", 7, None,
+                _udhex(32), _udhex(64), "ab" * 15 + "\uff11\uff12", "ab" * 31 + "\u0967\u0966"],
     "tx": ["abc", "0", "", "aabbcc", "zz", 5, None, "0100000001" + "00" * 36 + "00" + "ffffffff" + "00" + "00000000"],
-    "receipt": ["", "zz", 5, None, [], "abc", "0", "00f"],
-    "receipt_merkle_proof": [[], "00", None, [""], ["zz"], [5], [[]], {}, ["abc"], ["00", "0"]],
+    "receipt": ["", "zz", 5, None, [], "abc", "0", "00f", _udhex(20), "f8" + _udhex(6)],
+    "receipt_merkle_proof": [[], "00", None, [""], ["zz"], [5], [[]], {}, ["abc"], ["00", "0"],
+                             [_udhex(8)], ["00", "ab" + _udhex(2)]],
     "blocks": [[], None, "00", [5], [None], [[]], {}, ["00", 5]],
     "brothers": [[], None, "00", [[]], [5], [["zz"]], [[""]], [[5]], [["00"]], [[], []], {},
                  [["abc"]], [["0"]]],
     "message": [None, "hash", ["hash"], 5, {}, "00" * 32],
     "auth": [None, [], "x", 5, {}],
-    "witnessScript": ["", "zz", 5, None, "abc", "0", "00f"],
+    "witnessScript": ["", "zz", 5, None, "abc", "0", "00f", _udhex(10)],
 }
 
 
